@@ -33,16 +33,19 @@ def typed(cs, nstacks):
         a.step(c)
     return True
 
+# sizes and limits beyond i64::MAX are legitimate usize values
+HUGE = [(1 << 63) - 1, 1 << 63, (1 << 63) + 1, (1 << 64) - 2, (1 << 64) - 1]
+
 def rand_call(rng, stacks):
     k = rng.choice(stacks)
     t = rng.choice([0, 1, 1, 2, 2, 2, 3, 4, 5, 5, 6])
-    if t == 0: return [0, rng.choice([0, 1, 2, 3, 5, 8, 20])]
-    if t == 1: return [1, k, rng.choice([0, 1, 2, 3, 5, 8])]
+    if t == 0: return [0, rng.choice([0, 1, 2, 3, 5, 8, 20, HUGE[rng.randrange(len(HUGE))]])]
+    if t == 1: return [1, k, rng.choice([0, 1, 2, 3, 5, 8, HUGE[rng.randrange(len(HUGE))]])]
     if t == 2: return [2, k, [rng.randint(0, 1) if k == 2 else rng.randint(-9, 9) for _ in range(rng.choice([0, 1, 2, 3, 4, 6]))]]
     if t == 3: return [3, [rng.randint(100, 120) for _ in range(rng.choice([0, 1, 2, 3, 5]))]]
     if t == 4: return [4]
     if t == 5: return [5, k, rng.randint(0, 3), rng.randint(0, 1) if k == 2 else rng.randint(-9, 9)]
-    return [6, rng.choice([0, 1, 7, 1000])]
+    return [6, rng.choice([0, 1, 7, 1000, HUGE[rng.randrange(len(HUGE))]])]
 
 def typed_sequence(rng, stacks, maxlen=9):
     """a random WELL-TYPED sequence ending in Build"""
